@@ -20,17 +20,19 @@ type Type int
 
 const maxTypeId = 30
 
+// The ids of the built-in types. New registers the types in this order, so every
+// FunctionGenerator assigns the same ids.
 var (
-	IntTypeId     Type
-	FloatTypeId   Type
-	StringTypeId  Type
-	BoolTypeId    Type
-	ListTypeId    Type
-	MapTypeId     Type
-	ClosureTypeId Type
-	FormatTypeId  Type
-	LinkTypeId    Type
-	FileTypeId    Type
+	IntTypeId     Type = 1
+	FloatTypeId   Type = 2
+	StringTypeId  Type = 3
+	BoolTypeId    Type = 4
+	ListTypeId    Type = 5
+	MapTypeId     Type = 6
+	ClosureTypeId Type = 7
+	FormatTypeId  Type = 8
+	LinkTypeId    Type = 9
+	FileTypeId    Type = 10
 )
 
 type Value interface {
@@ -649,16 +651,23 @@ func (fg *FunctionGenerator) GetDocumentation() []funcGen.TypeDocumentation {
 
 func New() *FunctionGenerator {
 	f := &FunctionGenerator{}
-	IntTypeId = f.RegisterType("int", "Represents an integer value.")
-	FloatTypeId = f.RegisterType("float", "Represents a float value.")
-	StringTypeId = f.RegisterType("string", "Represents a string value.")
-	BoolTypeId = f.RegisterType("bool", "Represents a boolean value.")
-	ListTypeId = f.RegisterType("list", "Represents a list of values.")
-	MapTypeId = f.RegisterType("map", "Represents a key value map.")
-	ClosureTypeId = f.RegisterType("closure", "Represents a closure.")
-	FormatTypeId = f.RegisterType("format", "Used to add css to values which is used when they are exported to a html file.")
-	LinkTypeId = f.RegisterType("link", "Used to add a link to a value.")
-	FileTypeId = f.RegisterType("file", "Represents a file which can be downloaded.")
+	// The package level ids are not written here: New may be called while functions created
+	// by another FunctionGenerator are evaluated in other goroutines, which read these ids.
+	register := func(expected Type, name string, description string) {
+		if id := f.RegisterType(name, description); id != expected {
+			panic(fmt.Sprintf("type %s got the id %d, expected %d", name, id, expected))
+		}
+	}
+	register(IntTypeId, "int", "Represents an integer value.")
+	register(FloatTypeId, "float", "Represents a float value.")
+	register(StringTypeId, "string", "Represents a string value.")
+	register(BoolTypeId, "bool", "Represents a boolean value.")
+	register(ListTypeId, "list", "Represents a list of values.")
+	register(MapTypeId, "map", "Represents a key value map.")
+	register(ClosureTypeId, "closure", "Represents a closure.")
+	register(FormatTypeId, "format", "Used to add css to values which is used when they are exported to a html file.")
+	register(LinkTypeId, "link", "Used to add a link to a value.")
+	register(FileTypeId, "file", "Represents a file which can be downloaded.")
 
 	fg := funcGen.New[Value]().
 		AddConstant("pi", Float(math.Pi)).
